@@ -112,6 +112,9 @@ def run_path(world, it, ref, contract):
             it.param_syms[cname] = v
         for clause in contract.requires:
             it.assume(it.spec_eval(clause, st.env, ref))
+        for clause in contract.class_invariants:
+            it.assumptions.add(f"class invariant assumed on entry: {clause}")
+            it.assume(it.spec_eval(clause, st.env, ref))
         if not it.feasible():
             return
         old = st.snapshot()
